@@ -51,3 +51,10 @@ func VerifPipeIDSetNext(next uint32) {
 // VerifPipeIDGet / VerifPipeIDFree call the allocator directly.
 func VerifPipeIDGet() uint32    { return pipeIDs.Get() }
 func VerifPipeIDFree(id uint32) { pipeIDs.Free(id) }
+
+// VerifPipeIDNext reads the allocator's counter.
+func VerifPipeIDNext() uint32 {
+	pipeIDs.lock.Lock()
+	defer pipeIDs.lock.Unlock()
+	return pipeIDs.next
+}
